@@ -236,7 +236,7 @@ def concurrent_proxies(rnd, n):
         time.sleep(0.08)                 # A's client has read and fed the body, and waits for the end of the stream
         res["b"] = outcome(lambda: pb.echo("b"))
         b_done.set()
-        ca.join(6)
+        ca.join(40)                      # (bounded; a loaded machine is not a verdict)
         for ls in (lsA, lsB):
             ls.close()
         recs.append({"fault": "concurrent-proxy", "item": item, "want": "protocol" if item == "J601" else "app", "code": enc(err["code"]),
